@@ -207,7 +207,7 @@ func extract(a hx.ExtractArgs) error {
 	// One natural number per collation: the int32 weights of the runes 0..tableSize-1, 32 bits each (two's complement),
 	// rune r in bits [32r, 32r+32) — a hex literal elaborates instantly and the kernel reads it with GMP arithmetic.
 	fmt.Fprintf(&b, "def tableSize : Nat := %d\n\n", tableSize)
-	b.WriteString("structure Coll where\n  name : String\n  id : Nat\n  charset : String\n  ci : Bool\n  bin : Bool\n  caseSensitiveFlag : Bool\n  maxLen : Nat\n  tbl : Nat\n\n")
+	b.WriteString("structure Coll where\n  name : String\n  id : Nat\n  charset : String\n  ci : Bool\n  bin : Bool\n  caseSensitiveFlag : Bool\n  maxLen : Nat\n  tbl : Nat\n  byteW : Nat\n\n")
 	var names []string
 	for _, k := range cs {
 		var hexs strings.Builder
@@ -215,7 +215,26 @@ func extract(a hx.ExtractArgs) error {
 			fmt.Fprintf(&hexs, "%08x", uint32(k.c.Sorter(rune(r))))
 		}
 		fmt.Fprintf(&b, "def t_%d : Nat := 0x%s\n", k.c.ID, hexs.String())
-		fmt.Fprintf(&b, "def c_%d : Coll := ⟨%s, %d, %s, %v, %v, %v, %d, t_%d⟩\n", k.c.ID, hx.LeanString(k.name), k.c.ID, hx.LeanString(k.c.CharacterSet.Name()), k.ci, k.isBin, k.c.IsCaseSensitive, k.c.CharacterSet.MaxLength(), k.c.ID)
+		// one-byte character sets: the weight of the character each byte 0..255 decodes to (0x80000000 = the byte is
+		// not a character of the set), 32 bits per byte, byte b in bits [32b, 32b+32)
+		encName := "0"
+		if k.c.CharacterSet.MaxLength() == 1 {
+			var eh strings.Builder
+			for bt := 255; bt >= 0; bt-- {
+				v := uint32(0x80000000)
+				if k.bin {
+					v = uint32(k.c.Sorter(rune(bt)))
+				} else if u, ok := k.c.CharacterSet.Encoder().DecodeRune([]byte{byte(bt)}); ok {
+					if r, n := utf8.DecodeRune(u); n == len(u) && (r != utf8.RuneError || n == 3) {
+						v = uint32(k.c.Sorter(r))
+					}
+				}
+				fmt.Fprintf(&eh, "%08x", v)
+			}
+			fmt.Fprintf(&b, "def e_%d : Nat := 0x%s\n", k.c.ID, eh.String())
+			encName = fmt.Sprintf("e_%d", k.c.ID)
+		}
+		fmt.Fprintf(&b, "def c_%d : Coll := ⟨%s, %d, %s, %v, %v, %v, %d, t_%d, %s⟩\n", k.c.ID, hx.LeanString(k.name), k.c.ID, hx.LeanString(k.c.CharacterSet.Name()), k.ci, k.isBin, k.c.IsCaseSensitive, k.c.CharacterSet.MaxLength(), k.c.ID, encName)
 		names = append(names, fmt.Sprintf("c_%d", k.c.ID))
 	}
 	b.WriteString("\n/-- every collation with a Sorter and an encoder: flags and the weights of the runes 0..tableSize-1 -/\ndef table : List Coll := [")
@@ -478,17 +497,30 @@ func run(a hx.RunArgs) error {
 	tableOracle := func(k coll, maxCP int) {
 		// attached to a small `cmp` case so that a failure has a replayable input
 		if k.ci && !k.bin {
+			// A–Z for every character set, À–Þ (without ×) where the character set has both letters — the ranges the
+			// Lean facts facts_ci_fold_ascii / facts_ci_fold_latin1 decide on the dumped tables.
+			var uppers []rune
 			for c := 'A'; c <= 'Z'; c++ {
+				uppers = append(uppers, c)
+			}
+			for c := rune(0xC0); c <= 0xDE; c++ {
+				if c != 0xD7 && enc(k, c) && enc(k, c+32) {
+					uppers = append(uppers, c)
+				}
+			}
+			turkish := strings.Contains(k.name, "turkish") || strings.Contains(k.name, "_tr_")
+			for _, c := range uppers {
 				lo := c + 32
 				if k.c.Sorter(c) != k.c.Sorter(lo) {
 					obs := cmpCase(k, []byte(string(c)), []byte(string(lo)))
 					tag := "-"
 					switch {
-					case c == 'I' && (strings.Contains(k.name, "turkish") || strings.Contains(k.name, "_tr_")):
+					case turkish && (c == 'I' || (c >= 0xCC && c <= 0xCF)):
 						tag = "ci_turkish_dotted_i"
-					case c == 'T' && k.name == "latin7_general_ci":
-						tag = "ci_latin7_general_t"
+					case k.name == "latin7_general_ci" && (c == 'T' || c == 0xD8):
+						tag = "ci_latin7_general_pairs"
 					}
+					out.Stat("ci-fold-exception:" + tag)
 					out.OracleFail(fmt.Sprint(out.N()), tag, fmt.Sprintf("%s is case-insensitive but Compare(%q,%q)=%s (weights %d, %d)", k.name, string(c), string(lo), obs, k.c.Sorter(c), k.c.Sorter(lo)))
 				}
 			}
